@@ -196,6 +196,36 @@ func init() {
 			p.Clauses = keep
 			return true
 		},
+		"subsumes_term/2": func(m *Machine, a []Term, _ *frame) bool {
+			// ISO 8.2.4: true iff Specific is an instance of General, without binding anything
+			before := Vars(a[1], nil)
+			mark := m.W.Trail.Mark()
+			ok := UnifyOC(a[0], a[1], &m.W.Trail)
+			if ok {
+				// the variables of Specific must be untouched (still distinct unbound variables)
+				seen := map[*Var]bool{}
+				for _, v := range before {
+					d, isVar := Deref(v).(*Var)
+					if !isVar || seen[d] {
+						ok = false
+						break
+					}
+					seen[d] = true
+				}
+			}
+			m.W.Trail.Undo(mark)
+			return ok
+		},
+		"term_variables/2": func(m *Machine, a []Term, _ *frame) bool {
+			vs := Vars(a[0], nil)
+			ts := make([]Term, len(vs))
+			for i, v := range vs {
+				ts[i] = v
+			}
+			return m.unify(a[1], List(ts...))
+		},
+		"atom_chars/2": func(m *Machine, a []Term, _ *frame) bool { return atomText(m, a, false) },
+		"atom_codes/2": func(m *Machine, a []Term, _ *frame) bool { return atomText(m, a, true) },
 		"./2": func(m *Machine, a []Term, _ *frame) bool {
 			Unsupported("a list as a goal (consult shorthand)")
 			return false
@@ -538,4 +568,46 @@ func biLength(m *Machine, a []Term, cont *frame) bool {
 	default:
 		return false
 	}
+}
+
+// atomText implements atom_chars/2 and atom_codes/2 for the modes the generators use: a bound atom
+// (or number - unsupported) to list, or a ground list to atom.
+func atomText(m *Machine, a []Term, codes bool) bool {
+	switch x := Deref(a[0]).(type) {
+	case Atom:
+		var es []Term
+		for _, r := range string(x) {
+			if codes {
+				es = append(es, Int(r))
+			} else {
+				es = append(es, Atom(string(r)))
+			}
+		}
+		return m.unify(a[1], List(es...))
+	case *Var:
+		elems, tail := ListSlice(a[1])
+		if Deref(tail) != Term(Nil) {
+			InstErr()
+		}
+		var sb []rune
+		for _, e := range elems {
+			switch c := Deref(e).(type) {
+			case Atom:
+				if codes || utf8.RuneCountInString(string(c)) != 1 {
+					Unsupported("atom_chars/atom_codes with an ill-typed list")
+				}
+				sb = append(sb, []rune(string(c))[0])
+			case Int:
+				if !codes {
+					Unsupported("atom_chars/atom_codes with an ill-typed list")
+				}
+				sb = append(sb, rune(c))
+			default:
+				Unsupported("atom_chars/atom_codes with a partial or ill-typed list")
+			}
+		}
+		return m.unify(x, Atom(string(sb)))
+	}
+	Unsupported("atom_chars/atom_codes of a non-atom")
+	return false
 }
